@@ -111,37 +111,39 @@ def _run(cfg, V, r, sdl):
         from CircuitCalculator.SimpleSimulation import schematic as sch
         import matplotlib
         vals = {'S': {'V': V.val('S.V', 'r')}, 'R1': {'R': V.val('R1.R', 'pos')}, 'C1': {'C': V.val('C1.C', 'pos')}, 'L1': {'L': V.val('L1.L', 'pos')}}
-        order = cfg['directions']          # (d_src, d_1, d_2, d_3)
-        lens = cfg['lengths']
-        elems = [dict(type='voltage_source', name='S', direction=order[0], length=lens[0], **vals['S']),
-                 dict(type='resistor', name='R1', direction=order[1], length=lens[1], **vals['R1']),
-                 dict(type=cfg['third'], name='X', direction=order[2], length=lens[2], **({'C': vals['C1']['C']} if cfg['third'] == 'capacitor' else {'L': vals['L1']['L']})),
-                 dict(type='line', direction=order[3], length=lens[3]),
-                 dict(type='ground')]
-        if cfg.get('place_after'):
-            # an extra branch placed after a named earlier element
-            elems.insert(3, dict(type='resistor', name='R9', R=V.val('R9.R', 'pos'), direction='down', length=lens[2], place_after='R1'))
-        unit = cfg.get('unit', 7)
-        before = C17.snap(elems)
-        dsch = elm.Schematic(unit=unit)
-        sch.fill(dsch, [dict(e) for e in elems], unit, False, sch.SolutionDefinition({}))
-        c_decl = dt.circuit_translator(dsch)
-        # the equivalent programmatic construction
-        prog = elm.Schematic(unit=unit)
-        placed = {}
-        def put(e, direction, length, after=None):
-            getattr(e, direction)(length * unit)
-            if after is not None: e.at(placed[after].end)
-            prog.add(e)
-            if hasattr(e, 'name') and e.name: placed[e.name] = e
-        put(elm.VoltageSource(name='S', V=vals['S']['V']), order[0], lens[0])
-        put(elm.Resistor(name='R1', R=vals['R1']['R']), order[1], lens[1])
-        put(elm.Capacitor(name='X', C=vals['C1']['C']) if cfg['third'] == 'capacitor' else elm.Inductance(name='X', L=vals['L1']['L']), order[2], lens[2])
-        if cfg.get('place_after'): put(elm.Resistor(name='R9', R=V.val('R9.R', 'pos')), 'down', lens[2], after='R1')
-        put(elm.Line(), order[3], lens[3])
-        prog.add(elm.Ground())
-        c_prog = dt.circuit_translator(prog)
-        compare(components_of(c_prog), components_of(c_decl), 'declarative vs programmatic', obs, c_prog.ground_node, c_decl.ground_node)
+        def one(order, lens, unit, tag):
+            elems = [dict(type='voltage_source', name='S', direction=order[0], length=lens[0], **vals['S']),
+                     dict(type='resistor', name='R1', direction=order[1], length=lens[1], **vals['R1']),
+                     dict(type=cfg['third'], name='X', direction=order[2], length=lens[2], **({'C': vals['C1']['C']} if cfg['third'] == 'capacitor' else {'L': vals['L1']['L']})),
+                     dict(type='line', direction=order[3], length=lens[3]),
+                     dict(type='ground')]
+            if cfg.get('place_after'):
+                # an extra branch placed after a named earlier element
+                elems.insert(3, dict(type='resistor', name='R9', R=V.val('R9.R', 'pos'), direction='down', length=lens[2], place_after='R1'))
+            dsch = elm.Schematic(unit=unit)
+            sch.fill(dsch, [dict(e) for e in elems], unit, False, sch.SolutionDefinition({}))
+            c_decl = dt.circuit_translator(dsch)
+            # the equivalent programmatic construction
+            prog = elm.Schematic(unit=unit)
+            placed = {}
+            def put(e, direction, length, after=None):
+                getattr(e, direction)(length * unit)
+                if after is not None: e.at(placed[after].end)
+                prog.add(e)
+                if hasattr(e, 'name') and e.name: placed[e.name] = e
+            put(elm.VoltageSource(name='S', V=vals['S']['V']), order[0], lens[0])
+            put(elm.Resistor(name='R1', R=vals['R1']['R']), order[1], lens[1])
+            put(elm.Capacitor(name='X', C=vals['C1']['C']) if cfg['third'] == 'capacitor' else elm.Inductance(name='X', L=vals['L1']['L']), order[2], lens[2])
+            if cfg.get('place_after'): put(elm.Resistor(name='R9', R=V.val('R9.R', 'pos')), 'down', lens[2], after='R1')
+            put(elm.Line(), order[3], lens[3])
+            prog.add(elm.Ground())
+            c_prog = dt.circuit_translator(prog)
+            compare(components_of(c_prog), components_of(c_decl), f'declarative vs programmatic{tag}', obs, c_prog.ground_node, c_decl.ground_node)
+        order = tuple(cfg['directions']); lens = tuple(cfg['lengths']); unit = cfg.get('unit', 7)
+        if cfg.get('history'):
+            # an earlier description in the same process (same names, another layout and drawing unit) must not influence the next one
+            one(order[1:] + order[:1], lens[::-1], unit + 2, ' (earlier description)')
+        one(order, lens, unit, ' (after an earlier description)' if cfg.get('history') else '')
         return obs
     raise KeyError(cfg['kind'])
 
@@ -187,6 +189,7 @@ def configs(tier, seed):
         for dirs in (('up', 'right', 'down', 'left'), ('down', 'left', 'up', 'right'), ('right', 'down', 'left', 'up')):
             for pa in (False, True):
                 cfgs.append({'kind': 'declarative', 'third': third, 'directions': dirs, 'lengths': (1, 1, 1, 1) if not pa else (1, 2, 1, 2), 'place_after': pa, 'unit': 7 if not pa else 3})
+                cfgs.append({'kind': 'declarative', 'third': third, 'directions': dirs, 'lengths': (1, 2, 1, 2), 'place_after': pa, 'unit': 3, 'history': True})
     cfgs.append(dict(cfgs[0], twin=True))
     return cfgs, None
 
@@ -204,5 +207,5 @@ def main(tier):
         assumptions=['geometry is produced by schemdraw itself and is concrete; only values, flags and identities are symbolic', 'the real json library is used in concrete replay only (C code)', 'file I/O (dump / load on disk) is not exercised',
                      'persistable symbol set as in the property statement; lamp, switch, labelled wire, node label are not in the loader table'],
         bounds={'sources': ['V', 'I', 'Vc', 'Ic', 'Vac', 'Iac', 'Vrect', 'Irect'], 'flags': 'all reversal / deg / sin combinations', 'cycles': [1, 2],
-                'declarative lists': '2 third-element kinds x 3 direction orders x with / without place_after'},
+                'declarative lists': '2 third-element kinds x 3 direction orders x with / without place_after x alone / after an earlier description of the same names in another layout and unit'},
         trusted=['z3 QF_LRA', 'symx executor', 'schemdraw placement (concrete)'])
